@@ -1638,6 +1638,8 @@ def transform(fn, proceed, to_instrument=True, set_conformer=True):
         # and returns the function that interests us. The new function
         # shares the cells of the original one.
         template = glb.pop("#WRAP")(*[None for _ in freevars])
+        # (the template is not a function anyone can call or refer to)
+        template.__ptera_discard__ = True
         cells = dict(zip(freevars, fn.__closure__))
         actual_fn = types.FunctionType(
             code=template.__code__,
